@@ -174,6 +174,14 @@ def add_samples(W, cfg):
             W.require(st.in_cube(W, p), 'C10:evaluated-in-cube', str(p))
     if 'C12' in props and S.explored:
         check_append_only(W, S, pre)
+        # after exploration a step adds exactly the newly evaluated batch
+        # (exploration-time transfer candidates never enter a shell)
+        grown = sum(len(S.points[i]) - len(pre['points'][i])
+                    for i in range(len(pre['points'])))
+        W.require(grown == len(like.calls),
+                  'C12:only-new-samples-after-exploration',
+                  '%d rows added, %d points evaluated' % (grown,
+                                                          len(like.calls)))
 
 
 def check_append_only(W, S, pre):
